@@ -497,6 +497,30 @@ namespace chaiscript {
 
       static void pop_stack(Stack_Holder &t_holder) { t_holder.stacks.pop_back(); }
 
+#ifdef CHAISCRIPT_VERIF
+      /// verification hooks (compiled only with -DCHAISCRIPT_VERIF)
+      static std::atomic<bool> &verif_ignore_hints() noexcept {
+        static std::atomic<bool> s_ignore{false};
+        return s_ignore;
+      }
+      static int &verif_in_ignore_hints_call() noexcept {
+        thread_local int s_depth = 0;
+        return s_depth;
+      }
+      /// (number of call frames, scopes in the innermost frame, call_params lists, call depth,
+      ///  conversion saves enabled, conversion saves held) of the calling thread
+      std::array<long, 6> verif_stack_shape() {
+        auto &h = get_stack_holder();
+        auto &saves = m_conversions.conversion_saves();
+        return {static_cast<long>(h.stacks.size()),
+                static_cast<long>(h.stacks.empty() ? 0 : h.stacks.back().size()),
+                static_cast<long>(h.call_params.size()),
+                static_cast<long>(h.call_depth),
+                static_cast<long>(saves.enabled ? 1 : 0),
+                static_cast<long>(saves.saves.size())};
+      }
+#endif
+
       /// Searches the current stack for an object of the given name
       /// includes a special overload for the _ place holder object to
       /// ensure that it is always in scope.
@@ -509,6 +533,18 @@ namespace chaiscript {
         };
 
         uint_fast32_t loc = t_loc;
+
+#ifdef CHAISCRIPT_VERIF
+        if (verif_ignore_hints().load() && verif_in_ignore_hints_call() == 0) {
+          // verification hook: never use or store the per-node hint; search by name with a scratch hint
+          std::atomic_uint_fast32_t scratch{0};
+          ++verif_in_ignore_hints_call();
+          struct Leave {
+            ~Leave() { --verif_in_ignore_hints_call(); }
+          } leave;
+          return get_object(name, scratch, t_holder);
+        }
+#endif
 
         if (loc == 0) {
           auto &stack = get_stack_data(t_holder);
